@@ -114,6 +114,32 @@ def generate(rng, maxnodes: int = 10, bias: typing.Optional[str] = None) -> dict
     return spec
 
 
+def single_sink(spec: dict, rng) -> dict:
+    """Funnel all apply-mode leaves into one sink (collector workers with up to 3 inputs) and drop trainers/assets
+    unless apply-mode persistent: the shape the single-function runner accepts."""
+    spec = {'nodes': [dict(m) for m in spec['nodes']], 'edges': [list(e) for e in spec['edges']], 'trainers': [],
+            'tail': None, 'assets': spec['assets']}
+    for m in spec['nodes']:
+        m['szout'] = max(1, m['szout'])  # a pure sink cannot be funnelled
+    while True:
+        n = len(spec['nodes'])
+        fed = {e[0] for e in spec['edges']}
+        leaves = [i for i in range(n) if i not in fed]
+        if len(leaves) == 1 and spec['nodes'][leaves[0]]['szout'] <= 1:
+            spec['tail'] = leaves[0]
+            break
+        take = leaves[:3]
+        k = n
+        spec['nodes'].append({'szin': len(take), 'szout': 1, 'group': k, 'stateful': rng.random() < 0.3})
+        for i, leaf in enumerate(take):
+            spec['edges'].append([leaf, rng.randrange(spec['nodes'][leaf]['szout']), k, i])
+    if spec['assets']:
+        stateful = sorted({m['group'] for m in spec['nodes'] if m['stateful']})
+        listed = [g for g in spec['assets']['listed'] if isinstance(g, str) or g in stateful]
+        spec['assets'] = {'listed': listed, 'prev': spec['assets']['prev']}
+    return spec
+
+
 def signature(spec: dict) -> str:
     """Canonical-ish signature for counting distinct shapes (exact structure, names are positional)."""
     return repr((
@@ -138,7 +164,7 @@ class Built(typing.NamedTuple):
     gids: dict  # group (or foreign key) -> gid
 
 
-def build(spec: dict) -> Built:
+def build(spec: dict, log: typing.Optional[str] = None) -> Built:
     """Wire the spec through the public graph API."""
     names = {}
     nodes: list = []
@@ -146,7 +172,7 @@ def build(spec: dict) -> Built:
         g = m['group']
         if g == i:
             names[g] = f'n{g}'
-            nodes.append(flow.Worker(symbolic.builder(names[g], m['stateful'], max(1, m['szout'])), m['szin'], m['szout']))
+            nodes.append(flow.Worker(symbolic.builder(names[g], m['stateful'], max(1, m['szout']), log), m['szin'], m['szout']))
         else:
             nodes.append(nodes[g].fork())
     for src, outport, dst, inport in spec['edges']:
